@@ -16,7 +16,7 @@ ORACLE = {
     "C01": "dot test <Ax,y> = <x,A.H y> (exact on Gaussian integers where arithmetic is exact, 1e-6 relative for FFT/NUFFT/wavelet/KB), shapes swapped, A.H.H = A, real-input branch; all Linop classes, MRI factories, random trees; regression streams for the repaired defects",
     "C02": "runtime stream: byte snapshots of every ndarray argument and captured array, np.shares_memory vs IR alias claims, repeated application (also after .H/.N), A(0) = 0 with recycled memory, exact linearity on Gaussian integers incl. real-dtype x, y with complex a",
     "C03": "dense matrix of the real tree (basis vectors) vs numpy block-matrix expression of its parts; A(x).shape = A.oshape; misfits must raise; inputs of the advertised rank whose shape differs from ishape must be rejected at application",
-    "C04": "A.N(x) vs A.H(A(x)) for all classes/trees, all 1-D block layouts up to length 7, Toeplitz NUFFT within 6 % / 0.6 %",
+    "C04": "A.N(x) vs A.H(A(x)) for all classes/trees, all 1-D block layouts up to length 7; ArrayToBlocks in 1-3 D: A.H(A(x)) = A.N(x) = cover * x with the brute-force cover count (incl. stride == block with a non-dividing extent); BlocksToArray.N(1) = 1 iff B <= S or one block; Toeplitz NUFFT within 6 % / 0.6 %",
     "C05": "explicit complex128 DFT-matrix product incl. centre pad/crop in 1-4 dims, round trip, norm, dtype preservation, A.N(x) = x",
     "C06": "exact NUDFT vs sp.nufft: per-coordinate row error of the implementation matrix (< 3 % defaults, < 0.3 % oversamp 2), adjoint dot test 1e-6 over oversamp x width, periodicity (skipped at float window-edge ties)",
     "C07": "direct evaluation of the documented kernel sum in numpy, scipy.special.i0 for Kaiser-Bessel (2.5e-7), duplicates/wrapped contributions add",
